@@ -13,7 +13,8 @@ import numpy as np
 import vlib
 
 LEVEL = "proof"
-EXTRA_PROPERTY_FILES = ["C19_energy"]   # CMMaterialProp::DoEnergy / DoCoEnergy of nonlinear materials (BHEnergy.v)
+EXTENSIONS = ["xnl"]                     # the Newton loop of FSolver::Static2D (AsmMNL.v, props/xnl.py)
+EXTRA_PROPERTY_FILES = ["C19_energy", "C19_nl"]   # CMMaterialProp::DoEnergy / DoCoEnergy of nonlinear materials (BHEnergy.v)
 COQ_MODULES = ["BH", "BHEnergy"]
 ASSUMPTIONS = [
     "theorems about the stored slopes (spline equations, straight-line table => constant slopes) are conditional on GaussSolve's own success flag; that flag is evaluated by the float model on every generated table and a False is reported as a violation",
@@ -238,6 +239,11 @@ def post_energy(ctx, tables):
                                         % (nm, b1, b2, u["id"], u["lamtype"], f, x, y), table=dict(u)))
                         break
     return dis[:5], st
+
+
+def regen(ctx):
+    from props import xnl
+    xnl.regen(ctx)            # the statements of static2d.cpp the Newton-loop model (AsmMNL.v) transcribes
 
 
 def ensure_snap(ctx):
@@ -649,7 +655,8 @@ def correspond(ctx):
     cov["values_compared"] = st["values"]
     cov["bit_identical"] = st["bit"]
     cov["solver_pairs"] = sres
-    return dis
+    from props import ext as extmod
+    return list(dis) + extmod.run(ctx, EXTENSIONS)
 
 
 def report_failures(ctx, fails, cap=5):
